@@ -286,32 +286,48 @@ func opC12Cells(raw json.RawMessage, o *Out) {
 		for _, d := range mc.Touchcells {
 			tc[d] = true
 		}
+		pair := func(did s2.CellID, predict, want bool) {
+			dc := s2.CellFromCellID(did)
+			d := cell.DistanceToCell(dc)
+			o.Count("cellpair_evals")
+			if predict && (d == 0) != want {
+				o.Fail(fmt.Sprintf("cell/DistanceToCell-zero/%v/%s", want, cls), "DistanceToCell(%s) = %g, model touches: %v: %s", c12Name(did), float64(d), want, desc)
+			}
+			if back := dc.DistanceToCell(cell); back != d {
+				o.Fail("cell/DistanceToCell/symmetry/"+cls, "DistanceToCell(%s) = %g but the converse = %g: %s", c12Name(did), float64(d), float64(back), desc)
+			}
+			md := cell.MaxDistanceToCell(dc)
+			if back := dc.MaxDistanceToCell(cell); back != md {
+				o.Fail("cell/MaxDistanceToCell/symmetry/"+cls, "MaxDistanceToCell(%s) = %g but the converse = %g: %s", c12Name(did), float64(md), float64(back), desc)
+			}
+			if !c12Leq(d, md) {
+				o.Fail("cell/DistanceToCell/min-le-max/"+cls, "DistanceToCell(%s) = %g > MaxDistanceToCell = %g: %s", c12Name(did), float64(d), float64(md), desc)
+			}
+			ctr := dc.Center()
+			if !c12Leq(d, cell.Distance(ctr)) || !c12Leq(cell.MaxDistance(ctr), md) {
+				o.Fail("cell/DistanceToCell/bounds-centre/"+cls, "DistanceToCell(%s) = %g, Distance(its centre) = %g, MaxDistance(its centre) = %g, MaxDistanceToCell = %g: %s", c12Name(did), float64(d), float64(cell.Distance(ctr)), float64(cell.MaxDistance(ctr)), float64(md), desc)
+			}
+			for vk := 0; vk < 4; vk++ {
+				v := dc.Vertex(vk)
+				if !c12Leq(d, cell.Distance(v)) || !c12Leq(cell.MaxDistance(v), md) {
+					o.Fail("cell/DistanceToCell/bounds-vertex/"+cls, "DistanceToCell(%s) = %g, Distance(its vertex %d) = %g, MaxDistance(its vertex) = %g, MaxDistanceToCell = %g: %s", c12Name(did), float64(d), vk, float64(cell.Distance(v)), float64(cell.MaxDistance(v)), float64(md), desc)
+				}
+			}
+		}
 		for l := 0; l <= e.r.L; l++ {
 			for k := 0; k < 1<<uint(2*l); k++ {
-				did := e.id(l, k)
-				dc := s2.CellFromCellID(did)
-				d := cell.DistanceToCell(dc)
-				want := tc[[2]int{l, k}]
-				o.Count("cellpair_evals")
-				if (d == 0) != want {
-					o.Fail(fmt.Sprintf("cell/DistanceToCell-zero/%v/%s", want, cls), "DistanceToCell(%s) = %g, model touches: %v: %s", c12Name(did), float64(d), want, desc)
+				pair(e.id(l, k), true, tc[[2]int{l, k}])
+			}
+		}
+		if e.a == 0 {
+			// cells of the other faces: whether they touch across a cube edge is not predicted here
+			for f := 0; f < 6; f++ {
+				if f == e.r.Face {
+					continue
 				}
-				if back := dc.DistanceToCell(cell); back != d {
-					o.Fail("cell/DistanceToCell/symmetry/"+cls, "DistanceToCell(%s) = %g but the converse = %g: %s", c12Name(did), float64(d), float64(back), desc)
-				}
-				md := cell.MaxDistanceToCell(dc)
-				if !c12Leq(d, md) {
-					o.Fail("cell/DistanceToCell/min-le-max/"+cls, "DistanceToCell(%s) = %g > MaxDistanceToCell = %g: %s", c12Name(did), float64(d), float64(md), desc)
-				}
-				ctr := dc.Center()
-				if !c12Leq(d, cell.Distance(ctr)) || !c12Leq(cell.Distance(ctr), md) {
-					o.Fail("cell/DistanceToCell/bounds-centre/"+cls, "DistanceToCell(%s) = %g, Distance(its centre) = %g, MaxDistanceToCell = %g: %s", c12Name(did), float64(d), float64(cell.Distance(ctr)), float64(md), desc)
-				}
-				for vk := 0; vk < 4; vk++ {
-					v := dc.Vertex(vk)
-					if !c12Leq(d, cell.Distance(v)) || !c12Leq(cell.Distance(v), md) {
-						o.Fail("cell/DistanceToCell/bounds-vertex/"+cls, "DistanceToCell(%s) = %g, Distance(its vertex %d) = %g, MaxDistanceToCell = %g: %s", c12Name(did), float64(d), vk, float64(cell.Distance(v)), float64(md), desc)
-					}
+				pair(emb.RawID(f, nil), false, false)
+				for k := 0; k < 4; k++ {
+					pair(emb.RawID(f, []int{k}), false, false)
 				}
 			}
 		}
@@ -448,6 +464,7 @@ func c12Padded(o *Out, e *c12Env, cls, desc string, mc c12Cell, cell s2.Cell, ki
 type c12Seg struct {
 	Dir, Line, A, B int
 	Cross           [][2]int
+	Graze           [][2]int
 }
 
 func opC12Segs(raw json.RawMessage, o *Out) {
@@ -467,7 +484,14 @@ func opC12Segs(raw json.RawMessage, o *Out) {
 		}
 		return e.probePt[e.byIJ[[2]int{line, x}]]
 	}
+	vat := func(dir, line, x int) s2.Point {
+		if dir == 0 {
+			return e.vertex[x*(e.vn+1)+line]
+		}
+		return e.vertex[line*(e.vn+1)+x]
+	}
 	for _, sg := range c.Segs {
+		c12Graze(o, e, cls, sg, vat)
 		a, b := at(sg.Dir, sg.Line, sg.A), at(sg.Dir, sg.Line, sg.B)
 		cross := map[[2]int]bool{}
 		for _, x := range sg.Cross {
@@ -526,6 +550,51 @@ func opC12Segs(raw json.RawMessage, o *Out) {
 		}
 	}
 	o.sample = map[string]any{"op": "c12segs", "root": c12Name(e.rootID), "segments": len(c.Segs), "first": c.Segs[0]}
+}
+
+// c12Graze: the segment along a grid line from grid vertex A to grid vertex B+1 lies exactly
+// on cell boundaries and runs through cell vertices.  Whether a grazed cell reports exactly 0
+// is not predicted; a cell whose closed square does not meet the segment must be at positive
+// distance, and the order relations must hold.
+func c12Graze(o *Out, e *c12Env, cls string, sg c12Seg, vat func(dir, line, x int) s2.Point) {
+	a, b := vat(sg.Dir, sg.Line, sg.A), vat(sg.Dir, sg.Line, sg.B+1)
+	graze := map[[2]int]bool{}
+	for _, x := range sg.Graze {
+		graze[x] = true
+	}
+	sd := fmt.Sprintf("segment on grid %s %d from vertex %d to vertex %d of level %d below root %s", []string{"row line", "column line"}[sg.Dir], sg.Line, sg.A, sg.B+1, e.a+e.r.Lp, c12Name(e.rootID))
+	for l := 0; l <= e.r.L; l++ {
+		for k := 0; k < 1<<uint(2*l); k++ {
+			id := e.id(l, k)
+			cell := s2.CellFromCellID(id)
+			d := cell.DistanceToEdge(a, b)
+			desc := fmt.Sprintf("cell %s, %s", c12Name(id), sd)
+			o.Count("graze_evals")
+			if d == 0 && !graze[[2]int{l, k}] {
+				o.Fail("seg/graze/DistanceToEdge-zero-but-apart/"+cls, "DistanceToEdge = 0 but the closed cell does not meet the segment: %s", desc)
+			}
+			if graze[[2]int{l, k}] && float64(d) > c12Tol(0)*1e4 {
+				// grazing contact: the reported distance may be a rounding residue, not a real gap
+				o.Fail("seg/graze/DistanceToEdge-positive-but-touching/"+cls, "DistanceToEdge = %g but the closed cell meets the segment: %s", float64(d), desc)
+			}
+			if rev := cell.DistanceToEdge(b, a); rev != d {
+				o.Fail("seg/graze/reversal/"+cls, "DistanceToEdge(a,b) = %g, (b,a) = %g: %s", float64(d), float64(rev), desc)
+			}
+			if d > cell.Distance(a) || d > cell.Distance(b) {
+				o.Fail("seg/graze/endpoint/"+cls, "DistanceToEdge = %g > endpoint distances %g, %g: %s", float64(d), float64(cell.Distance(a)), float64(cell.Distance(b)), desc)
+			}
+			for x := sg.A + 1; x <= sg.B; x++ {
+				m := vat(sg.Dir, sg.Line, x)
+				if !c12Leq(d, cell.Distance(m)) {
+					o.Fail("seg/graze/point-of-edge-closer/"+cls, "DistanceToEdge = %g but grid vertex %d on the edge is at %g: %s", float64(d), x, float64(cell.Distance(m)), desc)
+				}
+			}
+			md := cell.MaxDistanceToEdge(a, b)
+			if !c12Leq(d, md) || !c12Leq(cell.MaxDistance(a), md) || !c12Leq(cell.MaxDistance(b), md) {
+				o.Fail("seg/graze/MaxDistanceToEdge/"+cls, "MaxDistanceToEdge = %g, DistanceToEdge = %g, MaxDistance(a) = %g, MaxDistance(b) = %g: %s", float64(md), float64(d), float64(cell.MaxDistance(a)), float64(cell.MaxDistance(b)), desc)
+			}
+		}
+	}
 }
 
 type c12Shrink struct {
